@@ -40,7 +40,7 @@ import torch
 from mc.core import market
 from mc.core.explore import all_paths
 from mc.core.runner import HarnessError
-from mc.models.fit_protocol import FitAutomaton, Reject, expected_trace, reference_fit
+from mc.models.fit_protocol import FitAutomaton, Reject, expected_trace, loss_of_pl, reference_fit
 
 FAMILIES = {}
 
@@ -59,6 +59,9 @@ MODELS = ("lazy_mlp", "mlp", "free_mo")
 # three-layer MLPs with one frozen (requires_grad=False) layer: first / middle / last in model.parameters() order
 FROZEN = ("mlp_frozen_first", "mlp_frozen_mid", "mlp_frozen_last")
 CRITERIA = ("erm", "es", "oce", "mse")
+# every built-in hedging loss (ExpectedShortfall at three levels): with a payoff that differs per path the loss fit()
+# optimises / reports must be the criterion of the P&L tensor (reference: criterion(portfolio - payoff), ONE argument)
+BUILTIN = ("erm", "entropic_loss", "es25", "es", "es75", "qcvar", "oce", "mse")
 # a criterion whose VALUE is not finite on the scripted batches (log of a negative terminal wealth) while its gradient
 # -1/(N pl_i) is: the documented loop still takes its k steps
 NONFINITE = ("iso_log",)
@@ -142,6 +145,16 @@ def make_criterion(name):
         return None  # the constructor default
     if name == "es":
         return ExpectedShortfall(0.5)
+    if name == "es25":
+        return ExpectedShortfall(0.25)
+    if name == "es75":
+        return ExpectedShortfall(0.75)
+    if name == "entropic_loss":
+        from pfhedge.nn import EntropicLoss
+        return EntropicLoss()
+    if name == "qcvar":
+        from pfhedge.nn import QuadraticCVaR
+        return QuadraticCVaR(2.0)
     if name == "oce":
         c = OCE(_oce_utility)
         with torch.no_grad():
@@ -216,7 +229,8 @@ def build_world(case, events):
     f64 = case.get("dtype") == "float64"
     stock_cost = case.get("stock_cost", 1 / 256)
     stock = market.primary("brownian", dtype=torch.float64 if f64 else None, cost=stock_cost, dt=market.DT, sigma=0.25)
-    deriv = market.derivative("european", stock, T=T, strike=1.0)
+    call = bool(case.get("call", True))
+    deriv = market.derivative("european", stock, T=T, strike=1.0) if call else market.derivative("european", stock, T=T, strike=1.0, call=False)
     clause = case.get("clause")
     if clause == "cap":
         deriv.add_clause("c15_cap", lambda d, payoff: payoff.clamp(max=0.0625))
@@ -226,8 +240,8 @@ def build_world(case, events):
         raise KeyError(clause)
 
     def payoff_model(spot):
-        """The harness' own model of the contract: European call payoff folded through the clause."""
-        z = torch.nn.functional.relu(spot[..., -1] - 1.0)
+        """The harness' own model of the contract: European call (put) payoff folded through the clause."""
+        z = torch.nn.functional.relu(spot[..., -1] - 1.0) if call else torch.nn.functional.relu(1.0 - spot[..., -1])
         if clause == "cap":
             z = torch.minimum(z, torch.full_like(z, 0.0625))
         elif clause == "knockout":
@@ -577,7 +591,8 @@ def unrolled_gradient(w, case, before, batch):
         wealth = wealth - c * (P[:, 1:] * (u[:, 1:] - u[:, :-1]).abs()).sum(-1) - c * P[:, 0] * u[:, 0].abs()
     crit = w.hedger.criterion
     cparams = {n: before["hedger.criterion." + n].detach().clone().requires_grad_() for n, _ in crit.named_parameters()}
-    loss = functional_call(crit, cparams, (wealth, w.payoff_model(S))) if cparams else crit(wealth, w.payoff_model(S))
+    # the loss is the criterion of the P&L tensor (one argument)
+    loss = functional_call(crit, cparams, (wealth - w.payoff_model(S),)) if cparams else loss_of_pl(crit, wealth - w.payoff_model(S))
     names = [pre + n for n in params] + ["hedger.criterion." + n for n in cparams]
     tensors = list(params.values()) + list(cparams.values())
     grads = torch.autograd.grad(loss, tensors, allow_unused=True)
@@ -599,6 +614,17 @@ def _raised_by_harness(exc):
 
 def classify_case(case):
     return f"{case['opt']}/{case['model']}" + ("/verbose" if case.get("verbose") else "")
+
+
+def _per_path_payoff(w, rec):
+    """True when some training batch of the call had a payoff that is not the same on every path."""
+    for st in rec.steps:
+        b = st.get("batch")
+        if b is not None and b.size(0) > 1:
+            z = w.payoff_model(b)
+            if bool((z != z[0]).any()):
+                return True
+    return False
 
 
 def check_case(ctx, case, stats):
@@ -687,6 +713,9 @@ def _compare_call(ctx, case, call, ci, w, rec, events, params0, final, history, 
                       observed=[list(map(_j, e)) for e in events[max(0, r.index - 6): r.index + 2]],
                       expected=str(r.expected), block=mini)
     stats["transitions"] += aut.matched
+    if _per_path_payoff(w, rec):
+        stats["runs_with_per_path_payoff"] = stats.get("runs_with_per_path_payoff", 0) + 1
+        ctx.outcome(("per_path_payoff", case["criterion"], bool(case.get("call", True))))
     stats["states"].update(aut.visited)
 
     # backward is called on a scalar that requires grad
@@ -864,7 +893,8 @@ def _finish_stats(ctx, stats):
         ctx.outcome(("automaton_state",) + tuple(s))
     if stats["unchanged"]:
         ctx.add("runs_with_steps_but_unchanged_parameters", stats["unchanged"])
-    for key in ("two_call_histories", "nonfinite_loss_runs", "nonfinite_loss_finite_gradient_runs", "unrolled_gradients"):
+    for key in ("two_call_histories", "nonfinite_loss_runs", "nonfinite_loss_finite_gradient_runs", "unrolled_gradients",
+                "runs_with_per_path_payoff"):
         if stats.get(key):
             ctx.add(key, stats[key])
 
@@ -942,7 +972,8 @@ def run(ctx):
     ctx.alphabet("k", [0, 1, 2, 3] if ctx.thorough else [0, 1, 2])
     ctx.alphabet("optimizer", list(OPTS))
     ctx.alphabet("model", list(MODELS) + list(FROZEN))
-    ctx.alphabet("criterion", list(CRITERIA) + list(NONFINITE))
+    ctx.alphabet("criterion", list(BUILTIN) + list(NONFINITE))
+    ctx.alphabet("derivative", ["european call", "european put"])
     ctx.alphabet("verbose", [False, True])
     ctx.alphabet("dtype", ["default float32", "float64"])
     ctx.alphabet("hedge_cost_rates", [[1 / 256, 1 / 128], [0.0, 1 / 128]])
@@ -995,6 +1026,15 @@ def run(ctx):
                            "content": [["erm", "stock+listed", None, 3], ["oce", "stock+listed", 1.25, 3]], "pre": ["fresh"],
                            "stock_cost": [0.0]}}
         ctx.run("fit_scripted", _expand(p10, wseed))
+        # P11: every built-in criterion x call / put x batch size (3, and all 9 scripted paths: the payoff differs per path)
+        # x hedge list at two protocol corners: the loss fit() optimises / reports is criterion(pl), pl = portfolio - payoff
+        p11 = {"product": {"criterion": list(BUILTIN) + list(NONFINITE), "call": [True, False], "n_paths": [3, 9],
+                           "hedge": ["none", "stock+listed"], "init": [None],
+                           "proto": [[2, [True, 2], "default", "lazy_mlp", "fresh"], [1, [True, 1], "sgd_inst", "mlp", "fresh"]]}}
+        ctx.run("fit_scripted", _expand(p11, wseed))
+        p12 = {"product": {"criterion": list(BUILTIN), "call": [True, False], "n_paths": [5], "hedge": ["stock"], "init": [1.0],
+                           "proto": [[2, [True, 2], "sgd_class", "mlp", "fresh"]]}}
+        ctx.run("real_rng", _expand(p12, wseed))
         two = _two_call_cases(wseed, [(1, 1), (2, 2), (0, 1)], [(True, 1), (False, 1)],
                               [["erm", "none", None, 3]], ["fresh"])
         two += _two_call_cases(wseed, [(1, 2)], [(True, 2)], [["oce", "stock+listed", 1.25, 1]], ["used"])
@@ -1035,11 +1075,19 @@ def run(ctx):
             blocks.append(_expand({"product": {"k": [0, 1, 2, 3], "val_ntimes": VN, "opt": list(OPTS), "model": [model],
                                                "criterion": ["erm", "oce"], "hedge": ["none", "stock+listed"], "init": [None],
                                                "n_paths": [3], "pre": ["fresh", "used"], "verbose": [True]}}, wseed))
+        for opt in OPTS:
+            blocks.append(_expand({"product": {"k": [1, 2], "val_ntimes": [[False, 1], [True, 1], [True, 2]], "opt": [opt], "model": list(MODELS),
+                                               "criterion": list(BUILTIN) + list(NONFINITE), "call": [True, False],
+                                               "hedge": ["none", "stock+listed"], "init": [None], "n_paths": [3, 9],
+                                               "pre": ["fresh"]}}, wseed))
         ctx.run_parallel("fit_scripted", blocks, workers=min(_workers(), len(blocks)))
         rblocks = []
         rblocks.append(_expand({"product": {"k": [1, 2, 3], "val_ntimes": VN, "opt": list(OPTS), "model": list(MODELS),
                                             "criterion": ["erm"], "hedge": ["none", "stock+listed"], "init": [1.25],
                                             "n_paths": [3], "pre": ["fresh"], "verbose": [True]}}, wseed))
+        rblocks.append(_expand({"product": {"k": [1, 2], "val_ntimes": [[True, 2]], "opt": list(OPTS), "model": list(MODELS),
+                                            "criterion": list(BUILTIN), "call": [True, False], "hedge": ["stock"], "init": [1.0],
+                                            "n_paths": [5], "pre": ["fresh"]}}, wseed))
         rblocks.append(_expand({"product": {"k": [1, 2, 3], "val_ntimes": [[True, 2]], "opt": list(OPTS), "model": list(FROZEN),
                                             "criterion": ["erm", "oce"], "hedge": ["none", "stock+listed"], "init": [1.25],
                                             "n_paths": [3], "pre": ["fresh"]}}, wseed))
